@@ -35,7 +35,9 @@ type cStmt struct {
 	declareVar bool   // loop whose init declares a fresh variable with := (rendering only)
 	init       *cStmt // rendering only: `for init; c; post`
 	clauses    []cClause
-	tag        *cExpr // switch with a tag: clause i tests tag == vals[i]
+	tag        *cExpr   // switch with a tag: clause i tests tag == vals[i]
+	g          int      // call: function index
+	args       []*cExpr // call: arguments
 }
 
 // cClause is one clause of a switch; the default clause (always last) has isDefault set.
@@ -125,6 +127,14 @@ func (s *cStmt) sexp() string {
 		return fmt.Sprintf("(assign %d %s)", s.x, s.e.sexp())
 	case "print":
 		return "(print " + s.e.sexp() + ")"
+	case "ret":
+		return "(ret " + s.e.sexp() + ")"
+	case "call":
+		parts := []string{"call", fmt.Sprint(s.x), fmt.Sprint(s.g)}
+		for _, a := range s.args {
+			parts = append(parts, a.sexp())
+		}
+		return "(" + strings.Join(parts, " ") + ")"
 	case "ite":
 		return "(ite " + s.c.sexp() + " " + s.a.sexp() + " " + s.b.sexp() + ")"
 	}
@@ -166,6 +176,14 @@ func (s *cStmt) render(b *strings.Builder, ind int) {
 		fmt.Fprintf(b, "%sv%d = %s\n", tab, s.x, s.e.goSrc())
 	case "print":
 		fmt.Fprintf(b, "%sfmt.Println(%s)\n", tab, s.e.goSrc())
+	case "ret":
+		fmt.Fprintf(b, "%sreturn %s\n", tab, s.e.goSrc())
+	case "call":
+		var as []string
+		for _, a := range s.args {
+			as = append(as, a.goSrc())
+		}
+		fmt.Fprintf(b, "%sv%d = f%d(%s)\n", tab, s.x, s.g, strings.Join(as, ", "))
 	case "ite":
 		fmt.Fprintf(b, "%sif %s {\n", tab, s.c.goSrc())
 		s.a.render(b, ind+1)
@@ -221,15 +239,18 @@ func (s *cStmt) render(b *strings.Builder, ind int) {
 }
 
 type coreGen struct {
-	r        *rand.Rand
-	nvars    int
-	ro       map[int]bool // variables that must not be assigned (loop counters)
-	inLoop   int
-	budget   int
-	fresh    int
-	declare  map[int]bool // variables declared by a `for v := …` (not by the leading var statement)
-	dead     map[int]bool // `:=` loop variables whose loop has ended (out of scope)
-	inSwitch int
+	r          *rand.Rand
+	nvars      int
+	ro         map[int]bool // variables that must not be assigned (loop counters)
+	inLoop     int
+	budget     int
+	fresh      int
+	declare    map[int]bool // variables declared by a `for v := …` (not by the leading var statement)
+	dead       map[int]bool // `:=` loop variables whose loop has ended (out of scope)
+	inSwitch   int
+	nparams    []int // declared functions callable from here: number of parameters of f_i
+	recursive0 bool  // f0 is the fixed recursive function
+	inFunc     bool  // generating a function body: `return` allowed
 }
 
 func (g *coreGen) lit() *cExpr { return &cExpr{k: "lit", n: int64(g.r.Intn(25) - 6)} }
@@ -326,9 +347,12 @@ func (g *coreGen) block(depth int) *cStmt {
 
 func (g *coreGen) stmt(depth int) *cStmt {
 	g.budget--
-	k := g.r.Intn(12)
+	k := g.r.Intn(14)
 	if depth >= 3 || g.budget <= 0 {
 		k = g.r.Intn(5)
+		if g.r.Intn(4) == 0 {
+			k = 12 // calls are not nesting constructs
+		}
 	}
 	switch {
 	case k < 3:
@@ -373,6 +397,20 @@ func (g *coreGen) stmt(depth int) *cStmt {
 			g.dead[w] = true
 		}
 		return l
+	case k == 12 && len(g.nparams) > 0:
+		// x = f(args…): arguments are copied; the callee prints into the same output
+		fi := g.r.Intn(len(g.nparams))
+		c := &cStmt{k: "call", x: g.target(), g: fi}
+		for i := 0; i < g.nparams[fi]; i++ {
+			c.args = append(c.args, g.expr(1))
+		}
+		if fi == 0 && g.recursive0 {
+			// bound the recursion depth of the recursive function
+			c.args[0] = &cExpr{k: "bin", op: "and", a: c.args[0], b: &cExpr{k: "lit", n: 7}}
+		}
+		return c
+	case k == 13 && g.inFunc:
+		return &cStmt{k: "ite", c: g.cond(1), a: &cStmt{k: "ret", e: g.expr(2)}, b: &cStmt{k: "skip"}}
 	case k == 11:
 		// switch: tag or tagless, default (if any) last, clause bodies never empty, fallthrough never
 		// from the last clause; `break` inside a clause leaves the switch
@@ -418,9 +456,63 @@ func (g *coreGen) stmt(depth int) *cStmt {
 	}
 }
 
-// genCore returns Go source and the protocol term of one core program.
+// genFunc generates one function: parameters v0…, locals, a body, a final return.
+func genFunc(r *rand.Rand, idx int, callable []int, rec0 bool) (src string, term string, np int) {
+	np = 1 + r.Intn(2)
+	g := &coreGen{r: r, nvars: np + 1 + r.Intn(2), ro: map[int]bool{}, budget: 3 + r.Intn(6), declare: map[int]bool{},
+		dead: map[int]bool{}, nparams: callable, inFunc: true, recursive0: rec0}
+	base := g.nvars
+	var ss []*cStmt
+	for g.budget > 0 {
+		ss = append(ss, g.stmt(1))
+	}
+	ss = append(ss, &cStmt{k: "ret", e: g.expr(2)})
+	p := seqOf(ss)
+	var b strings.Builder
+	var params []string
+	for i := 0; i < np; i++ {
+		params = append(params, fmt.Sprintf("v%d", i))
+	}
+	fmt.Fprintf(&b, "func f%d(%s int) int {\n", idx, strings.Join(params, ", "))
+	var names []string
+	for i := np; i < g.nvars; i++ {
+		if !g.declare[i] {
+			names = append(names, fmt.Sprintf("v%d", i))
+		}
+	}
+	if len(names) > 0 {
+		fmt.Fprintf(&b, "\tvar %s int\n", strings.Join(names, ", "))
+		for _, n := range names {
+			fmt.Fprintf(&b, "\t_ = %s\n", n)
+		}
+	}
+	_ = base
+	p.render(&b, 1)
+	b.WriteString("}\n\n")
+	return b.String(), p.sexp(), np
+}
+
+// factSrc / factTerm: a fixed recursive function (accumulating factorial-like recursion), index 0 when present.
+const factSrc = "func f0(v0, v1 int) int {\n\tvar v2 int\n\t_ = v2\n\tif (v0 <= 0) {\n\t\treturn v1\n\t}\n\tv2 = f0((v0 - 1), (v1 + (v0 * v0)))\n\treturn v2\n}\n\n"
+const factTerm = "(ite (cmp le (var 0) (lit 0)) (ret (var 1)) (seq (call 2 0 (bin sub (var 0) (lit 1)) (bin add (var 1) (bin mul (var 0) (var 0)))) (ret (var 2))))"
+
+// genCore returns Go source and the protocol term (function bodies and main) of one core program.
 func genCore(r *rand.Rand) (string, string) {
-	g := &coreGen{r: r, nvars: 3 + r.Intn(3), ro: map[int]bool{}, budget: 6 + r.Intn(14), declare: map[int]bool{}, dead: map[int]bool{}}
+	var fsrc, fterm []string
+	var nparams []int
+	rec0 := false
+	if r.Intn(2) == 0 {
+		if r.Intn(2) == 0 {
+			fsrc, fterm, nparams = append(fsrc, factSrc), append(fterm, factTerm), append(nparams, 2)
+			rec0 = true
+		}
+		for n := r.Intn(3); n > 0; n-- {
+			// a function may call the functions declared before it (and the recursive one)
+			src, term, np := genFunc(r, len(nparams), append([]int{}, nparams...), rec0)
+			fsrc, fterm, nparams = append(fsrc, src), append(fterm, term), append(nparams, np)
+		}
+	}
+	g := &coreGen{r: r, nvars: 3 + r.Intn(3), ro: map[int]bool{}, budget: 6 + r.Intn(14), declare: map[int]bool{}, dead: map[int]bool{}, nparams: nparams, recursive0: rec0}
 	base := g.nvars
 	var ss []*cStmt
 	for i := 0; i < base; i++ {
@@ -434,7 +526,11 @@ func genCore(r *rand.Rand) (string, string) {
 	}
 	p := seqOf(ss)
 	var b strings.Builder
-	b.WriteString("package main\n\nimport \"fmt\"\n\nfunc main() {\n")
+	b.WriteString("package main\n\nimport \"fmt\"\n\n")
+	for _, f := range fsrc {
+		b.WriteString(f)
+	}
+	b.WriteString("func main() {\n")
 	var names []string
 	for i := 0; i < g.nvars; i++ {
 		if !g.declare[i] {
@@ -445,7 +541,7 @@ func genCore(r *rand.Rand) (string, string) {
 	fmt.Fprintf(&b, "\t_, _, _ = %s\n", strings.Join(names[:3], ", "))
 	p.render(&b, 1)
 	b.WriteString("}\n")
-	return b.String(), p.sexp()
+	return b.String(), "(funs " + strings.Join(fterm, " ") + ") " + p.sexp()
 }
 
 func parseInts(out string) string {
@@ -502,6 +598,12 @@ func coreStream(run *common.Run) {
 			}
 			if strings.Contains(terms[i], "(switch ") {
 				run.Hit("core:switch")
+			}
+			if strings.Contains(terms[i], "(call ") {
+				run.Hit("core:call")
+			}
+			if strings.Contains(terms[i], "(call 2 0 ") {
+				run.Hit("core:recursion")
 			}
 			if strings.Contains(terms[i], ") 1) (c ") {
 				run.Hit("core:fallthrough")
